@@ -251,10 +251,10 @@ kf("C19", "C19-cr-line-comment", "a line comment terminated by a lone carriage r
 kf("C19", "C19-template-close-ge", "`vec2<f32>=...` (no space between a template list and '=') was rejected although the same text with a space was accepted",
    ["C19|join-template-close-=|rejected-after-edit(parse)|*"], "fixed:bb86276")
 kf("C19", "C19-blankspace-code-points-rejected", "the lexer knows only space, tab, LF and CR as blankspace: a vertical tab, form feed, U+0085 (next line), U+200E/U+200F (directional marks), U+2028 or U+2029 between two tokens (all WGSL blankspace) makes a valid program a parse error, e.g. `fn f() {<U+000B>}`",
-   [f"C19|enum-trivia:{c}/W-{b}@*|rejected-after-edit(parse)|trivia/*" for b in ("vt", "ff", "nel", "lrm", "rlm", "ls", "ps") for c in ("blank", "block")])
+   [f"C19|enum-trivia:{c}/W-{b}@*|rejected-after-edit(parse)|trivia/*" for b in ("vt", "ff", "nel", "lrm", "rlm", "ls", "ps") for c in ("blank", "block")], "fixed:9a6c75a")
 kf("C19", "C19-line-comment-other-line-breaks", "a line comment is ended only by LF or CR: after `// c` + VT / FF / U+0085 / U+2028 / U+2029 (all WGSL line breaks) the rest of the physical line is still comment, so the program is rejected or (comment in front of `@group(0) @binding(0)`) loses its attributes",
    [f"C19|enum-trivia:{c}/L-{b}@*|rejected-after-edit(parse)|trivia/*" for b in ("vt", "ff", "nel", "ls", "ps") for c in ("line", "line+block")] +
-   [f"C19|enum-trivia:{c}/L-{b}@start|lowered-module-differs|trivia/compute" for b in ("vt", "ff", "nel", "ls", "ps") for c in ("line", "line+block")])
+   [f"C19|enum-trivia:{c}/L-{b}@start|lowered-module-differs|trivia/compute" for b in ("vt", "ff", "nel", "ls", "ps") for c in ("line", "line+block")], "fixed:9a6c75a")
 
 # ---------------------------------------------------------------- C11 (diagnostics)
 kf("C11", "C11-silent-expect", "a missing ')' ']' or '>' was silently accepted by Parser.expect: `f(1, 2;`, `o[0;`, `@group(0 @binding(0)` compiled, or the error was reported at an unrelated earlier position",
